@@ -202,6 +202,14 @@ def Arr.insert (a : Arr) (pos : Arg) (xs : List Val) : Arr × Outcome Val :=
         let cells := writeAt cells pos.toNat (xs.map some)
         ({ a' with cells := cells, count := a.count + xs.length }, .ok)
 
+/-- the optional count argument of array/remove: default 1, must be a non-negative integer (`none` = panic) -/
+def removeCount (n : Option Arg) : Option Int :=
+  match n with
+  | none => some 1
+  | some x => match getInteger x with
+    | none => none
+    | some v => if v < 0 then none else some v
+
 /-- `cfun_array_remove`; `n = none` when argc = 2.  `safe` = which of the two recognised shapes of the clamp the
 source has (Gen/Seq.lean `removeClampNoOverflow`): `if (n > array->count - at)` (true) or `if (at + n > array->count)`
 (false; `at + n` is computed in `int32_t`, and when that overflows the behaviour is undefined: `ub`) -/
@@ -212,12 +220,7 @@ def Arr.removeWith (safe : Bool) (a : Arr) (pos : Arg) (n : Option Arg) : Arr ×
     let pos := if pos < 0 then a.count + pos else pos
     if pos < 0 ∨ pos > a.count then (a, .err)
     else
-      let nn : Option Int := match n with
-        | none => some 1
-        | some x => match getInteger x with
-          | none => none
-          | some v => if v < 0 then none else some v
-      match nn with
+      match removeCount n with
       | none => (a, .err)
       | some n =>
         if !safe && pos + n > i32max then (a, .ub)
